@@ -2,9 +2,9 @@ SPEC = {
     "id": "C05",
     "level": "other",
     "sidecars": ['normalize_url'],
-    "functions": ['ural/normalize_url.py:should_strip_fragment', 'ural/normalize_url.py:qsl_sort_key', 'ural/normalize_url.py:should_strip_query_item',
+    "functions": ['ural/utils.py:unsplit_netloc', 'ural/normalize_url.py:should_strip_fragment', 'ural/normalize_url.py:qsl_sort_key', 'ural/normalize_url.py:should_strip_query_item',
                   'ural/normalize_url.py:normalize_url', 'ural/utils.py:safe_qsl_iter'],
-    "function_sidecars": {'ural/normalize_url.py:normalize_url': ["normalize_url_main"], 'ural/utils.py:safe_qsl_iter': ["utils"]},
+    "function_sidecars": {'ural/utils.py:unsplit_netloc': ["utils"], 'ural/normalize_url.py:normalize_url': ["normalize_url_main"], 'ural/utils.py:safe_qsl_iter': ["utils"]},
     "bounded": ["bcheck.c05"],
     "explanation": (
         "Deductive extras (all inputs, pyvc): the query splitter safe_qsl_iter (one pair per '&'-separated item, in order; an item is cut at its FIRST '=' and key + '=' + value "
